@@ -5,6 +5,8 @@ import SF.Props.C03
 #print axioms SF.C03.cumulative_suffix
 #print axioms SF.C03.min_suffix
 #print axioms SF.C03.max_suffix
+#print axioms SF.C03.hln_suffix
+#print axioms SF.C03.cog_suffix
 #print axioms SF.C03.welford_suffix
 #print axioms SF.C03.vst_suffix
 #print axioms SF.C03.vsct_suffix
